@@ -41,7 +41,7 @@ MC_OpLevels == <<{", ".join("{" + ", ".join(json.dumps(o) for o in sorted(l)) + 
 """
 
 
-def mc_cfg(pool, maxnodes, maxrank, maxdim, final_only=False, mikinds=("fixed", "name", "slice"), dump=True, invariants=("WellFormed",), props=("AppendOnly",)):
+def mc_cfg(pool, maxnodes, maxrank, maxdim, final_only=False, mikinds=("fixed", "name", "slice"), chain=False, dump=True, invariants=("WellFormed",), props=("AppendOnly",)):
     lines = [
         "CONSTANTS",
         "Terminals <- MC_Terminals",
@@ -58,6 +58,7 @@ def mc_cfg(pool, maxnodes, maxrank, maxdim, final_only=False, mikinds=("fixed", 
         "OpLevels <- MC_OpLevels",
         "ReplMaps <- MC_ReplMaps",
         f"DumpFinalOnly = {'TRUE' if final_only else 'FALSE'}",
+        'ChainMode = "' + ("off" if not chain else "loose" if chain is True else chain) + '"',
         "MiKinds = {" + ", ".join(json.dumps(k) for k in mikinds) + "}",
         f"MaxNodes = {maxnodes}",
         f"MaxRank = {maxrank}",
@@ -80,7 +81,7 @@ def mc_cfg(pool, maxnodes, maxrank, maxdim, final_only=False, mikinds=("fixed", 
 class World:
     """Real ufl objects for a pool: one Coefficient per terminal, Index objects per pool name."""
 
-    def __init__(self, pool, lits, zeros, idxpool, gdim=2):
+    def __init__(self, pool, lits, zeros, idxpool, gdim=2, embed=None):
         import ufl
         from ufl.core.multiindex import Index
 
@@ -90,7 +91,7 @@ class World:
         self.pool = pool
         self.gdim = gdim
         cell = {1: ufl.interval, 2: ufl.triangle, 3: ufl.tetrahedron}[gdim]
-        self.mesh = ufl.Mesh(LagrangeElement(cell, 1, (gdim,)))
+        self.mesh = ufl.Mesh(LagrangeElement(cell, 1, (embed or gdim,)))
         self.terms = []
         opts = getattr(pool, "opts", {})
         byname = {}
@@ -98,6 +99,8 @@ class World:
             o = opts.get(name, {})
             if "grad_of" in o:
                 obj = ufl.grad(byname[o["grad_of"]])  # data terminal: the gradient of another terminal
+            elif o.get("kind") in ("J", "K", "detJ", "I"):
+                obj = {"J": lambda: ufl.Jacobian(self.mesh), "K": lambda: ufl.JacobianInverse(self.mesh), "detJ": lambda: ufl.JacobianDeterminant(self.mesh), "I": lambda: ufl.Identity(tuple(shape)[0])}[o["kind"]]()
             else:
                 V = ufl.FunctionSpace(self.mesh, LagrangeElement(cell, 2, tuple(shape)))
                 kind = o.get("kind", "coef")
@@ -299,6 +302,13 @@ def _apply_derivatives(e):
     return apply_derivatives(apply_algebra_lowering(e))
 
 
+def _cancelj(e):
+    from ufl.algorithms.cancel_jacobian_products import cancel_jacobian_products
+    from ufl.algorithms.remove_component_tensors import remove_component_tensors
+
+    return cancel_jacobian_products(remove_component_tensors(_lower(e)))
+
+
 def _remove_complex(e):
     from ufl.algorithms.remove_complex_nodes import remove_complex_nodes
 
@@ -379,6 +389,7 @@ PASSES = {
     "remove_ct": _remove_ct,
     "renumber": _renumber,
     "remove_complex": _remove_complex,
+    "cancelj": _cancelj,
     "expand_derivatives": _expand_derivatives,
     "apply_derivatives": _apply_derivatives,
     "identity": lambda e: e,
